@@ -8,7 +8,7 @@ SRC=${1:?src dir}; PROP=${2:?property}; NAME=${3:?name}
 export GOFLAGS=-mod=mod GOPROXY=off GOSUMDB=off GOTOOLCHAIN=local
 wt=$(mktemp -d /tmp/verif-intake-XXXXXX)
 log=$(mktemp /tmp/verif-intake-log-XXXXXX)
-cleanup() { git -C /repo worktree remove --force "$wt" >/dev/null 2>&1; rm -rf "$wt"; }
+cleanup() { git -C /repo worktree remove --force "$wt" >/dev/null 2>&1; rm -rf "$wt" "$log" "$log.retry"; }
 trap cleanup EXIT
 git -C /repo worktree add -f --detach "$wt" HEAD >/dev/null 2>&1 || { echo "$NAME: worktree failed"; exit 2; }
 demos=$(ls "$SRC"/*_test.go 2>/dev/null)
